@@ -22,6 +22,8 @@ import Qfx.Drv.Conc
 import Qfx.Drv.ConcMon
 import Qfx.Drv.Codec
 import Qfx.Drv.CodecMon
+import Qfx.Drv.Sock
+import Qfx.Drv.SockMon
 namespace Qfx.Drv
 
 def families : List (String × Family) :=
@@ -37,6 +39,8 @@ def families : List (String × Family) :=
   , ("crash", crashFamily), ("crash-mon", crashMonFamily)
   , ("conc", concFamily), ("conc-mon", concMonFamily)
   , ("codec", codecFamily), ("codec-mon", codecMonFamily)
+  , ("sock", sockFamily), ("sock-mon", sockMonFamily)
+  , ("sockj", sockFamily), ("sockj-mon", sockMonFamily)
   ]
 
 end Qfx.Drv
